@@ -1,6 +1,6 @@
 """R-REFERS-EXH(kind): the re-index predicate and updater cover every operator
 that carries an index into a re-indexable space."""
-from vlib.facts import walk, pat_variants, pat_alternatives, CheckError
+from vlib.facts import walk, peel, place_path, pat_variants, pat_alternatives, CheckError
 from vlib.report import RuleResult
 
 OP = "wasmparser::Operator"
@@ -96,6 +96,34 @@ def refers_exh(F, kind):
                     if bn in assigned:
                         written.setdefault(leaf["variant"], set()).add(fname)
 
+    # key/target agreement: `match mapping.get(K) { Some(n) => *T = *n }` must look up the very field it rewrites
+    n_pairs = 0
+    for g in walk(m2):
+        if g.get("k") != "Match":
+            continue
+        sc = peel(g.get("scrut") or {})
+        if not (sc.get("k") == "MethodCall" and sc.get("method") == "get" and sc.get("args")):
+            continue
+        kplace = place_path(sc["args"][0])
+        for arm in g["arms"]:
+            binds = {b["hid"] for b in walk(arm["pat"]) if b.get("k") == "Binding"}
+            if not binds:
+                continue
+            for a in walk(arm["body"]):
+                if a.get("k") != "Assign":
+                    continue
+                uses = {x["res"]["hid"] for x in walk(a["rhs"]) if x.get("k") == "Path" and x.get("res", {}).get("r") == "local"}
+                if not (uses & binds):
+                    continue
+                tplace = place_path(a["lhs"])
+                n_pairs += 1
+                ok = kplace is not None and kplace == tplace
+                r.ob(ok, {"lookup_key": kplace, "rewritten": tplace})
+                if not ok:
+                    r.violate("%s | key/target %s←map[%s]" % (upd["path"], tplace, kplace), F.loc(upd, a),
+                              "%s rewrites `%s` with the mapping of `%s`: the %s index is replaced by another operand's new index" % (names[1], tplace, kplace, kind))
+    r.count("lookup_rewrite_pairs", n_pairs)
+
     for v, fields in sorted(need.items()):
         okp = v in pred_set
         r.ob(okp, {"variant": v, "in_predicate": okp})
@@ -123,34 +151,76 @@ def refers_exh(F, kind):
     return r
 
 
+def _pred_accepts(F, fn):
+    m = _match_on_param(fn, F)
+    acc = set()
+    for arm in m["arms"]:
+        vs, wild = pat_variants(arm["pat"])
+        if _arm_is_true(arm):
+            acc |= {v for a, v in vs if a == OP}
+            if wild:
+                acc.add("*")
+    return acc
+
+
+def _upd_handles(F, fn):
+    m = _match_on_param(fn, F)
+    h = set()
+    for arm in m["arms"]:
+        if _diverges(arm["body"]):
+            continue
+        vs, wild = pat_variants(arm["pat"])
+        h |= {v for a, v in vs if a == OP}
+        if wild:
+            h.add("*")
+    return h
+
+
 def fix_op_dispatch(F):
-    """fix_op_id_mapping calls update_X under refers_to_X for all three kinds."""
-    r = RuleResult("R-FIXOP-DISPATCH", "fix_op_id_mapping guards update_{fn,global,memory}_instr by the matching refers_to_* predicate with the matching map parameter")
+    """fix_op_id_mapping: for each index space there is a dispatch `if P(op) { U(op, map) }` where P accepts exactly the
+    operators of that space (R-REFERS-EXH) and U handles every operator P accepts; the dispatch is unconditional otherwise.
+    Which map is passed is R-MAP-ARGS's business (inferred from use, not from names)."""
+    r = RuleResult("R-FIXOP-DISPATCH", "fix_op_id_mapping dispatches, for each of the three index spaces, `if refers_to_X(op) { update_X(op, map) }` with the updater handling every operator the predicate accepts, not nested under any other condition")
     fn = F.one_fn(name="fix_op_id_mapping")
     r.analysed.append(fn["path"])
-    want = {"refers_to_func": ("update_fn_instr", "func_mapping"),
-            "refers_to_global": ("update_global_instr", "global_mapping"),
-            "refers_to_memory": ("update_memory_instr", "memory_mapping")}
-    found = {}
-    for n in walk(fn["body"]):
-        if n.get("k") == "If":
-            c = n["cond"]
-            if c.get("k") == "Call" and c.get("callee"):
-                pname = c["callee"].split("::")[-1]
-                calls = [x for x in walk(n["then"]) if x.get("k") == "Call" and x.get("callee")]
-                for x in calls:
-                    uname = x["callee"].split("::")[-1]
-                    args = [a for a in x["args"]]
-                    mp = None
-                    if len(args) >= 2 and args[1].get("k") == "Path":
-                        mp = args[1]["res"].get("name")
-                    found[pname] = (uname, mp, n.get("else") is None)
-    for p, (u, mp) in want.items():
-        got = found.get(p)
-        ok = got is not None and got[0] == u and got[1] == mp
-        r.ob(ok, {"predicate": p, "expected": [u, mp], "found": got})
+    kinds_seen = {}
+    top = fn["body"]
+    top_ifs = []
+    # dispatches must sit at the top level of the function body (not under another condition)
+    stmts = list(top.get("stmts") or []) + ([top["expr"]] if top.get("expr") else [])
+    for st in stmts:
+        e = st.get("e") if st.get("k") in ("Semi", "Expr") else st
+        e = peel(e) if isinstance(e, dict) else e
+        if isinstance(e, dict) and e.get("k") == "If":
+            top_ifs.append(e)
+    for n in top_ifs:
+        c = peel(n["cond"])
+        if c.get("k") == "DropTemps":
+            c = peel(c.get("e") or c.get("a") or {})
+        if not (c.get("k") == "Call" and c.get("callee")):
+            continue
+        ptgt = F.by_path.get(c["callee"])
+        if not ptgt:
+            continue
+        for x in walk(n["then"]):
+            if x.get("k") == "Call" and x.get("callee") in F.by_path:
+                utgt = F.by_path[x["callee"]][0]
+                try:
+                    acc = _pred_accepts(F, ptgt[0])
+                    han = _upd_handles(F, utgt)
+                except CheckError:
+                    continue
+                for kind in ("func", "global", "memory"):
+                    need = set(index_variants(F, kind))
+                    if acc and (acc - {"*"}) <= need and (acc - {"*"}):
+                        ok = "*" in han or acc <= han
+                        kinds_seen[kind] = (ptgt[0]["name"], utgt["name"], ok)
+    for kind in ("func", "global", "memory"):
+        got = kinds_seen.get(kind)
+        ok = got is not None and got[2]
+        r.ob(ok, {"space": kind, "dispatch": got})
         if not ok:
-            r.violate("%s | %s" % (fn["path"], p), F.loc(fn),
-                      "fix_op_id_mapping does not call %s(op, %s) under %s(op): found %r" % (u, mp, p, got))
-    r.count("dispatches", len(found))
+            r.violate("%s | %s" % (fn["path"], kind), F.loc(fn),
+                      "fix_op_id_mapping has no unconditional `if <predicate>(op) { <updater>(op, ..) }` dispatch for the %s index space whose updater handles all accepted operators (found %r)" % (kind, got))
+    r.count("dispatches", len(kinds_seen))
     return r
